@@ -419,14 +419,17 @@ def _elf_fixture(cls, little):
     img.section('.dynsym', sh_type=11, sh_offset=symoff, sh_size=3 * symsz, sh_entsize=symsz, sh_link=1, sh_info=1)
     img.section('.note.x', sh_type=7, sh_offset=noteoff, sh_size=len(note))
     img.section('.dynamic', sh_type=6, sh_offset=dynoff, sh_size=len(tags) * dynsz, sh_entsize=dynsz, sh_link=1)
+    # section names need not be unique (.group, .rodata.str1.1, COMDAT .debug_types ...): a second section called .note.x
+    img.section('.note.x', sh_type=1, sh_offset=stroff, sh_size=2)
     img.add_shstrtab()
     return img.build()
 
 
 ELF_OPS = {
     'sections': lambda e: [(s.name, type(s).__name__, s['sh_offset'], s['sh_size']) for s in _d(e.iter_sections())],
-    'section_by_name': lambda e: [(n, (lambda s: None if s is None else s['sh_offset'])(e.get_section_by_name(n))) for n in ('.dynsym', '.nope', '.dynstr')],
-    'section_index': lambda e: [e.get_section_index(n) for n in ('.dynamic', '.nope')],
+    'section_by_name': lambda e: [(n, (lambda s: None if s is None else s['sh_offset'])(e.get_section_by_name(n))) for n in ('.dynsym', '.nope', '.dynstr', '.note.x')],
+    'section_index': lambda e: [e.get_section_index(n) for n in ('.dynamic', '.nope', '.note.x')],
+    'has_section': lambda e: [e.has_section(n) for n in ('.dynamic', '.nope', '.note.x', '.note')],
     'segments': lambda e: [(type(s).__name__, s['p_offset'], s['p_filesz']) for s in _d(e.iter_segments())],
     'symbols': lambda e: [(s.name, s['st_value']) for s in _d(e.get_section_by_name('.dynsym').iter_symbols())],
     'symbol_by_name': lambda e: [(lambda r: None if r is None else [x['st_value'] for x in r])(e.get_section_by_name('.dynsym').get_symbol_by_name(n)) for n in ('gg', 'zz')],
@@ -434,11 +437,15 @@ ELF_OPS = {
     'needed': lambda e: [t.needed for t in _d(e.get_section_by_name('.dynamic').iter_tags('DT_NEEDED'))],
     'segment_symbols': lambda e: [(s.name, s['st_value']) for s in [x for x in _d(e.iter_segments()) if type(x).__name__ == 'DynamicSegment'][0].iter_symbols()] if False else
     [(str(t.entry.d_tag), t.entry.d_val) for t in _d([x for x in _d(e.iter_segments()) if type(x).__name__ == 'DynamicSegment'][0].iter_tags())],
-    'notes': lambda e: [(n['n_name'], str(n['n_type']), n['n_offset'], n['n_size']) for n in _d(e.get_section_by_name('.note.x').iter_notes())],
+    'notes': lambda e: [(n['n_name'], str(n['n_type']), n['n_offset'], n['n_size']) for n in _d(e.get_section(3).iter_notes())],
     'section_data': lambda e: e.get_section_by_name('.dynstr').data(),
     'string': lambda e: e.get_section_by_name('.dynstr').get_string(3),
     'address_offsets': lambda e: list(e.address_offsets(0x10, 4)),
 }
+
+
+# histories: nothing, or one earlier query that fills a lazily built map (each accessor may be the first to build it)
+ELF_WARM = [[], ['sections'], ['section_index'], ['section_by_name'], ['has_section'], ['symbol_by_name'], ['segments']]
 
 
 def h_elf_stream_pos(ctx):
@@ -686,7 +693,7 @@ HARNESSES = [
       desc='L2: every DWARF operation of the alphabet (unit/entry lookup, children/parent, reference following, line program, CFI, aranges, pubnames, loc/range lists) on a two-unit fixture with the '
            'position of EVERY shared section stream symbolic (anywhere in the section): same answer as from a fresh object; repeated query equal'),
     H('h10_L2_elf_stream_pos', h_elf_stream_pos,
-      lambda tier: [dict(elfclass=c, little=l, op=o, warm=w) for c, l in ((64, True), (32, False)) for o in ELF_OPS for w in ([], ['sections'])], expect=('ok',),
+      lambda tier: [dict(elfclass=c, little=l, op=o, warm=w) for c, l in ((64, True), (32, False)) for o in ELF_OPS for w in ELF_WARM if w != [o]], expect=('ok',),
       desc='L2: section / segment / symbol / dynamic / note / string / data / address-map access on an ELF fixture with the file stream position symbolic'),
     H('h10_L5_iterators', h_iterators,
       lambda tier: [dict(kind='elf', elfclass=c, little=l, op=o) for c, l in ((64, True), (32, False)) for o in ITER_ELF_OPS] + [dict(kind='dwarf', op=o) for o in ITER_DWARF_OPS], expect=('ok',),
